@@ -84,6 +84,17 @@ Proof.
   rewrite unlink_spec, relink_spec, downs_of_spec. tauto.
 Qed.
 
+(* the set of downstreams is built and iterated internally, in an order that cannot be observed:
+   the result does not depend on it (nor on the order of job.required) *)
+Theorem bypass_order_independent ms rq j ms' rq' ups downs :
+  bypass ms rq j = Some (ms', rq') ->
+  (forall x, In x ups <-> In x (rq j)) -> (forall x, In x downs <-> In x (downs_of ms rq j)) ->
+  forall d r, In r (unlink j downs (relink ups downs rq) d) <-> In r (rq' d).
+Proof.
+  intros H Hu Hd d r. rewrite (bypass_rq _ _ _ _ _ H).
+  rewrite unlink_spec, relink_spec, !Hd, Hu, downs_of_spec. tauto.
+Qed.
+
 Corollary bypass_rq_other ms rq j ms' rq' d : bypass ms rq j = Some (ms', rq') ->
   ~ (In d ms /\ In j (rq d)) -> forall r, In r (rq' d) <-> In r (rq d).
 Proof. intros H Hn r. rewrite (bypass_rq _ _ _ _ _ H). tauto. Qed.
